@@ -141,8 +141,20 @@ void cmb_buffer_recording_start(struct cmb_buffer *bp)
     cmb_assert_release(bp != NULL);
     cmb_assert_release(((struct cmi_resourcebase *)bp)->cookie == CMI_INITIALIZED);
 
+    /*
+     * Resuming after a pause? The pause itself is not part of the history:
+     * the sample that closed the previous recording gets no duration.
+     */
+    struct cmb_timeseries *ts = &(bp->history);
+    const bool resuming = !bp->is_recording && (cmb_timeseries_count(ts) > 0u);
+
     bp->is_recording = true;
     record_sample(bp);
+
+    const uint64_t n = cmb_timeseries_count(ts);
+    if (resuming && (n >= 2u)) {
+        ts->wa[n - 2u] = 0.0;
+    }
 }
 
 void cmb_buffer_recording_stop(struct cmb_buffer *bp)
